@@ -30,6 +30,7 @@ type Engine struct {
 	sinkPfx    []string
 	targetPfx  string
 	skipInit   map[string]bool
+	sinkFuncs  map[string]bool // target functions treated as metrics/logging sinks (per check)
 
 	runtimeErrorString types.Type
 
@@ -116,6 +117,7 @@ func LoadEngine(repoDir string, overlayDir string, patterns []string) (*Engine, 
 		sinkPfx:      defaultSinks,
 		targetPfx:    targetModule,
 		skipInit:     make(map[string]bool),
+		sinkFuncs:    make(map[string]bool),
 		initFailures: make(map[string]string),
 		initStoreSet: make(map[*ssa.Package]map[*ssa.Global]bool),
 	}
